@@ -102,6 +102,11 @@ class BufferedReader(io.RawIOBase):
         todo = size
         while todo:
             self.cache(bucket)
+            if self.size is not None:
+                # the end of the source might have just been discovered
+                todo = min(todo, self.size - (bucket + offset))
+                if todo <= 0:
+                    break
             sz = min(todo, self.buffersize - offset)
             buf.write(self.buffers[bucket].data[offset:].tobytes())
             bucket += self.buffersize
